@@ -133,8 +133,8 @@ def one_case(ctx, lines, pend, w, k, colocate, work, ranks=None):
             lines.append(f'kaisa w={w} k={k} loc={loc} col={int(colocate)} '
                          f'gorder={gen.natlists(gorder)} work={gen.work_str(work)}')
             pend.append((dict(case, loc=loc, gorder=gorder), il))
-    except ValueError as e:
-        ctx.fail(f'valid configuration rejected: {e}', case, 'rejected-valid')
+    except Exception as e:  # noqa: BLE001
+        ctx.fail(f'valid configuration rejected: {type(e).__name__}: {e}', case, 'rejected-valid')
         return
     oracle(ctx, w, k, colocate, work, objs, callseqs)
     ctx.case((w, k, colocate, gen.work_str(work)), nontrivial=(w > 1 and len(work) > 0),
@@ -164,6 +164,11 @@ def run(ctx):
                 one_case(ctx, lines, pend, w, k, rng.random() < 0.5, gen.gen_work(rng, nlayers=2), None)
     ctx.exhaustive = True
     ctx.notes.append(f'enumerated every (world<= {wmax}, k | world, colocate) exhaustively; cost dicts random')
+    # degenerate but legal cost dictionaries: every cost zero (all ties)
+    for _ in range(ctx.budget(6, 40)):
+        w = rng.choice([1, 2, 4, 6])
+        work0 = {l: {f: 0 for f in fs} for l, fs in gen.gen_work(rng, nlayers=rng.choice([1, 2, 5])).items()}
+        one_case(ctx, lines, pend, w, rng.choice(gen.divisors(w)), rng.random() < 0.5, work0, None)
     # random cost dictionaries
     for _ in range(ctx.budget(150, 1500)):
         w = rng.choice([1, 2, 3, 4, 6, 8, 12, 16, 30, 32, 48, 64])
